@@ -20,6 +20,10 @@ sys.path.insert(0, os.path.join(VERIF, "tools"))
 import build  # noqa: E402
 from props import PROPS  # noqa: E402
 
+# development aid (tools/seeded.py): evidence and saved failures can be redirected so that parallel runs against scratch
+# worktrees do not overwrite the evidence of the real tree
+OUTDIR = os.environ.get("VERIF_OUT") or VERIF
+
 ASAN_OPTS = ("abort_on_error=0:exitcode=97:detect_leaks=1:allocator_may_return_null=1:"
              "max_allocation_size_mb=2048:handle_abort=1:print_summary=1:symbolize=1:"
              "detect_stack_use_after_return=0:malloc_context_size=12")
@@ -86,7 +90,10 @@ def replay_once(binp, eng, path, scratch, timeout=600):
     else:
         cmd = [binp, "--replay", path]
     try:
-        r = subprocess.run(cmd, env=env_for(eng.get("env")), stdout=subprocess.PIPE, stderr=subprocess.STDOUT,
+        ex = dict(eng.get("env", {}))
+        if eng.get("asan_extra"):
+            ex["ASAN_OPTIONS"] = ASAN_OPTS + ":" + eng["asan_extra"]
+        r = subprocess.run(cmd, env=env_for(ex), stdout=subprocess.PIPE, stderr=subprocess.STDOUT,
                            text=True, errors="replace", timeout=timeout, cwd=scratch)
     except subprocess.TimeoutExpired:
         return True, "replay timed out after %ds" % timeout
@@ -261,7 +268,7 @@ def main():
 
 
 def save_failure(pid, eng, case_path):
-    d = os.path.join(VERIF, "failures", pid, eng["harness"])
+    d = os.path.join(OUTDIR, "failures", pid, eng["harness"])
     os.makedirs(d, exist_ok=True)
     with open(case_path, "rb") as f:
         b = f.read()
@@ -383,8 +390,8 @@ def run(pid, p, a, seed, t0, scratch):
         "wall_s": round(wall, 2),
         "violations": len(violations),
     }
-    os.makedirs(os.path.join(VERIF, "evidence"), exist_ok=True)
-    with open(os.path.join(VERIF, "evidence", pid + ".json"), "w") as f:
+    os.makedirs(os.path.join(OUTDIR, "evidence"), exist_ok=True)
+    with open(os.path.join(OUTDIR, "evidence", pid + ".json"), "w") as f:
         json.dump(ev, f, indent=1, sort_keys=True)
         f.write("\n")
 
